@@ -353,11 +353,12 @@ pub fn replay_case(case: &Value, corpus_dir: &str, scratch: &str, trace: &mut Nd
     runner.run(&cat, &pats, &entries, &res, rec.get("pruned_result").is_some(), "replay", trace, out);
 }
 
-const C16_NAMES: [&str; 22] = [
+const C16_NAMES: [&str; 28] = [
+    "na\u{ef}ve.md", "\u{65e5}\u{672c}\u{8a9e}.txt", "caf\u{e9}s.txt", "X\u{e9}a.sol", "\u{8a9e}.sol", "\u{e9}t\u{e9}.t.sol",
     "A.sol", "a.SOL", "A.Sol", "A.sol.txt", "A.solx", ".sol", "sol", "A.t.sol", "A.T.SOL", "A.T.sol", "A.t.Sol", "t.sol", "At.sol",
     "A.tsol", "A.sol~", "A sol", "\u{c4}.sol", "README.md", "A.json", "B.sol", "Mock.t.sol", "x.T.Sol",
 ];
-const DIR_NAMES: [&str; 6] = ["src", "lib.sol", "test.t.sol", "deep", ".hidden", "a b"];
+const DIR_NAMES: [&str; 8] = ["src", "lib.sol", "test.t.sol", "deep", ".hidden", "a b", "na\u{ef}ve", "Mocks.T.SOL"];
 
 fn random_tree(rng: &mut Rng, depth: usize, budget: &mut usize, contents: &Vec<String>, c16: bool) -> Vec<Node> {
     let mut names: Vec<&str> = C16_NAMES.to_vec();
@@ -443,9 +444,10 @@ pub fn random(corpus_dir: &str, scratch: &str, count: usize, c16: bool, trace: &
     // directed: every ordered pair of witness contents as siblings (flat, and the second one level down), with all
     // patterns of the category co-selected in both orders -- a verdict must not depend on the sibling, on its
     // position in the listing or on the co-selected patterns (C15 iii; also an instance of the union, C03)
+    let mut pair_no = 0usize;
     for cat in cats {
         let (pats, ids, res) = &usable[cat];
-        let wit: Vec<&str> = ["w_old", "w_new", "c1", "c2", "c3", "c4"].into_iter().filter(|w| ids.iter().any(|i| i == w)).collect();
+        let wit: Vec<&str> = ["w_old", "w_new", "c1", "c2", "c3", "c4", "h_try_shapes.sol"].into_iter().filter(|w| ids.iter().any(|i| i == w)).collect();
         for x in wit.iter() {
             for y in wit.iter() {
                 if x == y {
@@ -453,6 +455,7 @@ pub fn random(corpus_dir: &str, scratch: &str, count: usize, c16: bool, trace: &
                 }
                 for nested in [false, true] {
                     for rev in [false, true] {
+                        pair_no += 1;
                         let mut sel = pats.clone();
                         if rev {
                             sel.reverse();
@@ -460,7 +463,8 @@ pub fn random(corpus_dir: &str, scratch: &str, count: usize, c16: bool, trace: &
                         let fy = Node::File { name: "B.sol".to_string(), content_id: y.to_string(), bytes: vec![] };
                         let mut entries = vec![
                             Node::File { name: "A.sol".to_string(), content_id: x.to_string(), bytes: vec![] },
-                            if nested { Node::Dir { name: "sub".to_string(), entries: vec![fy] } } else { fy },
+                            // (a directory is a directory whatever it is called: like a source, like a test file, hidden)
+                            if nested { Node::Dir { name: ["sub", "lib.sol", "mocks.t.sol", ".hidden", "Fuzz.T.Sol"][pair_no % 5].to_string(), entries: vec![fy] } } else { fy },
                         ];
                         fill_bytes(&mut entries, &texts);
                         let mut used = serde_json::Map::new();
